@@ -186,11 +186,15 @@ class DynWorld(World):
         cands = [n for n in meshlib.names(dim=2) if lib[n].Nn <= (25 if tier == "quick" else 40) and lib[n].main[0][0] in ("TRI3", "QUAD4", "TRI6", "QUAD8")]
         kinds = simlib.SIM_MODEL[actor]
         kind = kinds[int(rng.integers(len(kinds)))]
-        return {
+        cfg = {
             "actor": actor, "dim": dim, "mesh": cands[int(rng.integers(len(cands)))], "kind": kind,
             "params": simlib.gen_model_params(kind, rng, dim), "rho": float(np.round(rng.uniform(0.5, 4.0), 3)),
             "nops": int(rng.integers(10, 41 if tier == "quick" else 71)), "faults": bool(faults),
         }
+        if kind == "wf_scalar" and rng.random() < 0.5:
+            # user forms need not be symmetric: SUPG advection-diffusion (K, C and M all non-symmetric)
+            cfg["params"]["supg"] = True
+        return cfg
 
     def __init__(self, cfg, ctx):
         super().__init__(cfg, ctx)
@@ -562,7 +566,7 @@ class DynWorld(World):
         ctx.checked()
 
         # (vi) energy
-        if self.free_mode and refs.maxabs(C) == 0 and refs.maxabs(F) == 0 and (uD.size == 0 or refs.maxabs(uD) == 0):
+        if self.free_mode and not self.params.get("supg") and refs.maxabs(C) == 0 and refs.maxabs(F) == 0 and (uD.size == 0 or refs.maxabs(uD) == 0):
             E0, E1 = self._energy(K, M, u0, v0), self._energy(K, M, u1, v1)
             if spec["algo"] == "euler_implicit":
                 if E1 > E0 * (1 + 1e-9) + 1e-300:
